@@ -258,3 +258,44 @@ Proof.
     + vm_compute. repeat constructor; simpl; intuition discriminate.
   - eexists. split; vm_compute; reflexivity.
 Qed.
+
+(* ---------- archives win over whatever the folder beside them holds ---------- *)
+
+(* everything `holds` speaks about except the list of json names (the old folder may add names) *)
+Definition holds_content (r : row) (f : folder) : Prop :=
+  r_id r = f_reload_id f /\ r_name r = Some (f_name f) /\ r_tag r = f_tag f /\
+  r_complete r = Some (f_completed f) /\ r_grid r = false /\
+  r_model r = Some (f_model f) /\ r_info r = f_info_held f /\ r_samples r = f_samples f /\
+  r_instance r = option_map s_inst (best_of (f_samples f)) /\
+  r_maxll r = option_map s_ll (best_of (f_samples f)) /\
+  (forall j, In j (f_jsons f) -> In j (r_jsons r)).
+
+Lemma union_names_incl_l (a b : list string) : forall j, In j a -> In j (union_names a b).
+Proof.
+  revert a. induction b as [|x r IH]; intros a j H; simpl; [exact H|].
+  destruct (mem x a); [apply IH; exact H | apply IH; apply in_or_app; left; exact H].
+Qed.
+
+Lemma unzipped_in (ds : list on_disk) (d : on_disk) (a : folder) :
+  In d ds -> d_archive d = Some a -> In (overlay a (d_folder d)) (unzip_all ds).
+Proof.
+  intros Hd Ha. unfold unzip_all. apply in_flat_map. exists d. split; [exact Hd|].
+  unfold unzipped. rewrite Ha. left. reflexivity.
+Qed.
+
+Theorem archive_wins (classes : list search_class) (uf co : bool) (ds : list on_disk) :
+  wf classes uf co (unzip_all ds) ->
+  exists db, scrape classes uf co (unzip_all ds) [] = Loaded db /\
+    forall d a, In d ds -> d_archive d = Some a -> f_metadata a = true -> included co a = true ->
+      exists r, In r db /\ holds_content r a.
+Proof.
+  intro W. destruct (lossless classes uf co _ W) as (db & Hs & _ & Hall & _).
+  exists db. split; [exact Hs|]. intros d a Hd Ha Hm Hi.
+  destruct (Hall (overlay a (d_folder d))) as (r & Hr & Hh).
+  - unfold outputs. apply filter_In. split; [eapply unzipped_in; eassumption|].
+    simpl. rewrite Hm. exact Hi.
+  - exists r. split; [exact Hr|].
+    destruct Hh as (H1 & H2 & H3 & H4 & H5 & H6 & H7 & H8 & H9 & H10 & H11).
+    unfold holds_content. simpl in *. repeat split; try assumption.
+    intros j Hj. rewrite H11. destruct (d_folder d); [apply union_names_incl_l; exact Hj | exact Hj].
+Qed.
